@@ -11,14 +11,18 @@ import env
 from depccg.cat import Category
 from depccg.grammar import en, ja
 pairs = json.load(open(sys.argv[1]))
-out = []
-for lang, x, y in pairs:
+order = list(range(len(pairs)))
+if len(sys.argv) > 2 and sys.argv[2] == 'reversed':
+    order.reverse()
+out = [None] * len(pairs)
+for k in order:
+    lang, x, y = pairs[k]
     g = en if lang == 'en' else ja
     try:
         rs = g.apply_binary_rules(Category.parse(x), Category.parse(y))
-        out.append([[str(r.cat), r.op_string, r.op_symbol, r.head_is_left] for r in rs])
+        out[k] = [[str(r.cat), r.op_string, r.op_symbol, r.head_is_left] for r in rs]
     except Exception as e:
-        out.append('ERR:' + type(e).__name__)
+        out[k] = 'ERR:' + type(e).__name__
 print(json.dumps(out))
 '''
 
@@ -139,6 +143,23 @@ def run(ctx):
                 ctx.fail('argument_mutated', f'{lang}: apply_unary_rules({x}, table) changed the caller\'s unary table (a defaultdict, as the loader builds it)',
                          {'lang': lang, 'x': str(x), 'table_size_before': len(before), 'table_size_after': len(dd)})
                 break
+        if lang == 'en':
+            # exactness of the lookup: a key with an nb mark added is ANOTHER category (nothing configured), and a table entry keyed by an
+            # nb-marked category is found under exactly that category
+            for k, targets_ in list(table.items())[:12]:
+                kn = Category.parse(str(k).replace('NP', 'NP[nb]', 1)) if 'NP' in str(k) and 'NP[' not in str(k) else None
+                if kn is None or kn in table:
+                    continue
+                out = G.call(unary, kn)
+                if out != ('ok', []):
+                    ctx.fail('unary_not_exact', f'en: apply_unary_rules({kn}) returns {out}: only {k} (without the nb mark) has configured targets', {'lang': lang, 'x': str(kn)})
+                t2 = {kn: list(targets_)}
+                out = G.call(mod.apply_unary_rules, kn, t2)
+                if out[0] != 'ok' or [r.cat for r in out[1]] != targets_:
+                    ctx.fail('unary_not_exact', f'en: apply_unary_rules({kn}, {{{kn}: targets}}) does not return the targets configured for exactly that category', {'lang': lang, 'x': str(kn)})
+                cases.append(f'UnEn {gcat(kn)} {G.gtable(table)} (Ok_ [])')
+                descr.append(('un-nb', lang, str(kn)))
+                ctx.case(('un-nb', lang, str(kn)))
         for x in rng.sample(inv, 40):
             if x not in table:
                 out = G.call(unary, x)
@@ -148,6 +169,23 @@ def run(ctx):
                 descr.append(('un0', lang, str(x)))
     ctx.coq_cases('rules', G.PRE, cases, chunk=120, describe=lambda i: descr[i])
     # reproducibility across processes and string-hash seeds
+    # twins that differ only in variable features, next to each other with the same partner: the answer for one must not depend on
+    # whether the other was asked before (the list is also evaluated in reverse order by one of the fresh interpreters)
+    tw = [Category.parse(s_) for s_ in gen.inventory('en') if '[X]' in s_]
+    tw += [t_ for ts_ in gen.grammar('en')[2].values() for t_ in ts_ if '[X]' in str(t_)]        # type-raised categories of the unary table
+    tw += [Category.parse(s_) for s_ in ['S[X]/(S[X]\\NP)', '(S[X]\\NP)\\((S[X]\\NP)/PP)', '(S[X]\\NP)/NP[X]', 'S[X]/(NP[X]/N[X])', 'NP[X]/N']]
+    partners = [Category.parse(s_) for s_ in gen.inventory('en')[:400]]
+    n_tw = 0
+    for x_ in rng.sample(tw, min(len(tw), 60)):
+        x0 = x_.clear_features('X')
+        for y_ in rng.sample(partners, 25):
+            for a_, b_, a0 in ((x_, y_, x0), (y_, x_, None)):
+                a1, b1 = (a0, b_) if a0 is not None else (a_, x0)
+                r1, r0 = G.call(en.apply_binary_rules, a_, b_), G.call(en.apply_binary_rules, a1, b1)
+                if r1[0] == 'ok' and r0[0] == 'ok' and (r1[1] or r0[1]) and n_tw < 60:       # chosen by shape, not by the answers compared below
+                    seed_pairs += [['en', str(a_), str(b_)], ['en', str(a1), str(b1)]]
+                    n_tw += 1
+    ctx.stats['twin_pairs'] = n_tw
     seed_pairs += [['en', 'S[X]/(NP[X]/N[X])', '(NP[conj]/N[num])/PP'], ['en', '(S[X]\\NP[X])/NP[X]', 'NP[conj]'], ['en', 'NP[nb]/N', 'N[num]']]
     pf = os.path.join(ctx.work, 'seed_pairs.json')
     json.dump(seed_pairs, open(pf, 'w'))
@@ -159,10 +197,20 @@ def run(ctx):
     for s in seeds:
         e = dict(os.environ, PYTHONHASHSEED=str(s))
         procs.append((s, subprocess.Popen([sys.executable, '-B', sf, pf], env=e, stdout=subprocess.PIPE, stderr=subprocess.DEVNULL, text=True)))
+    prev = subprocess.Popen([sys.executable, '-B', sf, pf, 'reversed'], env=dict(os.environ, PYTHONHASHSEED='0'), stdout=subprocess.PIPE, stderr=subprocess.DEVNULL, text=True)
     for s, p in procs:
         o, _ = p.communicate()
         outs[s] = o.strip().splitlines()[-1] if o.strip() else ''
     base = outs[list(seeds)[0]]
+    o, _ = prev.communicate()
+    rev = json.loads((o.strip().splitlines() or ['[]'])[-1])
+    fwd = json.loads(base or '[]')
+    for k in range(min(len(rev), len(fwd))):
+        if rev[k] != fwd[k]:
+            ctx.fail('history_dependence', f'{seed_pairs[k][0]}: apply_binary_rules({seed_pairs[k][1]}, {seed_pairs[k][2]}) returns {fwd[k]} when the list of pairs is evaluated in order '
+                     f'and {rev[k]} when it is evaluated in reverse order (fresh interpreter each): the answer depends on which other pairs were asked before',
+                     {'lang': seed_pairs[k][0], 'x': seed_pairs[k][1], 'y': seed_pairs[k][2]})
+            break
     # history independence: what this (long-running) process returns now for the same pairs, after thousands of other calls, must be
     # what a fresh interpreter returns
     def here(lang, x, y):
